@@ -110,12 +110,16 @@ def dstep (s : Unit) (toks : List String) : Unit × String :=
   | ["reset"] => (s, "ok")
   | ["val", tu, sv, ct, rd, ir, td, tf, pol, bits, tm, ho, ur] =>
     match parseRow? [tu, sv, ct, rd, ir, td, tf, pol, bits, tm, ho, ur] with
-    | some (row, pol, bits, hoN, tf) => (s, showRes row (validateOrReject row) tf ("val" :: rowArms row pol bits hoN))
+    | some (row, pol, bits, hoN, tf) =>
+      let a := rowArms row pol bits hoN
+      (s, showRes row (validateOrReject row) tf ("val" :: ("val+" ++ (a.find? (·.startsWith "exit-")).getD "") :: a))
     | Option.none => (s, "bad-op")
   | ["vonly", tu, sv, ct, rd, ir, td, tf, pol, bits, tm, ho, ur] =>
     -- `validate_application_instance_cert` itself (no store-in-rejected step)
     match parseRow? [tu, sv, ct, rd, ir, td, tf, pol, bits, tm, ho, ur] with
-    | some (row, pol, bits, hoN, tf) => (s, showRes row (validate row) tf ("vonly" :: rowArms row pol bits hoN))
+    | some (row, pol, bits, hoN, tf) =>
+      let a := rowArms row pol bits hoN
+      (s, showRes row (validate row) tf ("vonly" :: ("vonly+" ++ (a.find? (·.startsWith "exit-")).getD "") :: a))
     | Option.none => (s, "bad-op")
   | ["val2", tu, sv, ct, rd, ir, td, tf, pol, bits, tm, ho, ur, tu2, sv2, ct2] =>
     -- the same store asked twice about the same certificate, flags changed in between
